@@ -71,6 +71,22 @@ def _choose(existing, request, via_config):
             if request is None:
                 assume(False)      # (None means socks_endpoint(); covered by the other entry point)
             n0 = len(tor.setconfs)
+            if via_config == 2:
+                # the synchronous TorConfig.socks_endpoint(): only ever uses what Tor already has
+                usable0 = [e for e in effective if first_word(e) == request]
+                try:
+                    ep0 = cfg.socks_endpoint(reactor, request)
+                except RuntimeError:
+                    ep0 = None
+                if tor.pending() or len(tor.setconfs) != n0:
+                    return R('socks_endpoint-wrote-to-tor')
+                if usable0:
+                    if ep0 is None or _ep_target(ep0) not in [_target(e) for e in usable0]:
+                        return R('endpoint-does-not-point-at-a-configured-port', 'socks_endpoint(%r) with %r -> %r', request, existing, ep0 and _ep_target(ep0))
+                elif ep0 is not None:
+                    return R('socks_endpoint-returned-a-port-tor-does-not-have', 'socks_endpoint(%r) with %r -> %r', request, existing, _ep_target(ep0))
+                reached()
+                return ''
             o = fakes.Outcome(cfg.create_socks_endpoint(reactor, request))
         else:
             n0 = 0
@@ -112,10 +128,10 @@ def _choose(existing, request, via_config):
 _EX = [()] + [(a,) for a in range(5)] + [(a, b) for a in range(5) for b in range(5) if first_word(ENTRIES[a]) != first_word(ENTRIES[b])]
 
 
-@cond(quick=dict(parts=[{'via_config': v} for v in (False, True)], budget=150))
-def c18_choose(ex: int, rq: int, via_config: bool) -> str:
+@cond(quick=dict(parts=[{'via_config': v} for v in (0, 1, 2)], budget=150))
+def c18_choose(ex: int, rq: int, via_config: int) -> str:
     """existing SOCKSPort configuration ex (index into the table of 0/1/2-entry configurations) x request rq, through
-    _create_socks_endpoint (via_config False) or TorConfig.create_socks_endpoint (True)"""
+    _create_socks_endpoint (via_config 0), TorConfig.create_socks_endpoint (1) or the synchronous TorConfig.socks_endpoint (2)"""
     ex = api.pick(ex, 0, len(_EX) - 1)
     rq = api.pick(rq, 0, len(REQUESTS) - 1)
     with api.no_tracing():      # every choice is concrete by now
